@@ -1122,3 +1122,79 @@ func BadPrevArgumentNil(d *D, files map[string][]byte) error {
 	d.prev = &v
 	return nil
 }
+
+// ---- exclusive marker / lock files ---------------------------------------------------
+
+// BadLockFile: an O_EXCL lock file at a fixed path, removed only by a defer: a crash leaves it
+// behind and every later write fails.
+func BadLockFile(d *D, files map[string][]byte) error {
+	lock, err := os.OpenFile(d.target+".lock", os.O_CREATE|os.O_EXCL|os.O_WRONLY, 0o600)
+	if err != nil {
+		return err
+	}
+	defer func() {
+		lock.Close()
+		os.Remove(d.target + ".lock")
+	}()
+	v := fresh(d)
+	if err := fill(d, v, files); err != nil {
+		return err
+	}
+	if err := swap(d, v); err != nil {
+		return err
+	}
+	if err := dropPrev(d); err != nil {
+		return err
+	}
+	d.prev = &v
+	return nil
+}
+
+// GoodBestEffortLock: the same lock, but failing to take it does not abort the write.
+func GoodBestEffortLock(d *D, files map[string][]byte) error {
+	if lock, err := os.OpenFile(d.target+".lock", os.O_CREATE|os.O_EXCL|os.O_WRONLY, 0o600); err == nil {
+		defer func() {
+			lock.Close()
+			os.Remove(d.target + ".lock")
+		}()
+	}
+	v := fresh(d)
+	if err := fill(d, v, files); err != nil {
+		return err
+	}
+	if err := swap(d, v); err != nil {
+		return err
+	}
+	if err := dropPrev(d); err != nil {
+		return err
+	}
+	d.prev = &v
+	return nil
+}
+
+// GoodExclInFreshDir: exclusive creations on per-call paths cannot collide with leftovers.
+func GoodExclInFreshDir(d *D, files map[string][]byte) error {
+	v := fresh(d)
+	if err := os.MkdirAll(d.base, 0o755); err != nil {
+		return err
+	}
+	if err := os.Mkdir(v, 0o755); err != nil {
+		return err
+	}
+	for n, b := range files {
+		f, err := os.OpenFile(filepath.Join(v, n), os.O_CREATE|os.O_EXCL|os.O_WRONLY, 0o600)
+		if err != nil {
+			return err
+		}
+		f.Write(b)
+		f.Close()
+	}
+	if err := swap(d, v); err != nil {
+		return err
+	}
+	if err := dropPrev(d); err != nil {
+		return err
+	}
+	d.prev = &v
+	return nil
+}
